@@ -129,7 +129,7 @@ func handler(kind verifhook.Kind, name string, obj any) {
 
 func (c *Ctl) park(g uint64, name string, obj any) {
 	c.mu.Lock()
-	if c.pass || g == c.ctlG || c.depth[g] > 0 || !c.parkable[name] {
+	if c.pass || g == c.ctlG || c.depth[g] > 0 || !(c.parkable[name] || strings.HasPrefix(name, "h.")) {
 		c.mu.Unlock()
 		return
 	}
@@ -322,7 +322,6 @@ func (c *Ctl) next() int {
 	return 0
 }
 
-
 // DecisionsUsed returns how many schedule bytes were consumed.
 func (c *Ctl) DecisionsUsed() int { return c.si }
 
@@ -371,6 +370,25 @@ func (c *Ctl) Settle(full bool) bool {
 		c.Grant(p[d%len(p)])
 	}
 }
+
+// Step grants exactly one ticket chosen by the next decision byte.
+// It returns false when nothing is parked (full quiescence) or the step limit was hit.
+func (c *Ctl) Step() bool {
+	c.Wait()
+	p := c.Pending()
+	if len(p) == 0 {
+		return false
+	}
+	if c.steps >= c.MaxSteps {
+		c.StepLimit = true
+		return false
+	}
+	c.Grant(p[c.next()%len(p)])
+	return true
+}
+
+// Park parks the calling goroutine at a harness-defined point (name must start with "h.").
+func (c *Ctl) Park(name string) { c.park(Goid(), name, nil) }
 
 // GrantWhere grants, in stable order, every pending ticket matching f until
 // none matches; other tickets stay parked.
